@@ -86,11 +86,52 @@ def scen_order(ch, params, out):
                 break
 
 
+def scen_merge_order(ch, params, out):
+    """registry level: n nested models, each introduced by its own sample; similarity = solver bits (any comparator);
+    the partition into classes must not depend on the order of the samples (= registration order of the models)"""
+    from json_to_models.generator import MetadataGenerator
+    from json_to_models.registry import ModelCmp, ModelRegistry
+    from vflib import oracles
+    n = params.get("models", 4)
+    perms = list(itertools.permutations(range(n)))[1:]
+    perm = ch.choose("sample_order", perms, shard=True)
+    bits = {}
+
+    class TableCmp(ModelCmp):
+        def cmp(self, fa, fb):
+            ia = tuple(sorted(k for k in fa if k.startswith("id")))
+            ib = tuple(sorted(k for k in fb if k.startswith("id")))
+            if not ia or not ib:
+                return False
+            key = tuple(sorted((ia, ib)))
+            if key not in bits:
+                bits[key] = ch.flag(f"similar{key}")
+            return bits[key]
+
+    def run(order):
+        samples = [{"rootmarker": 1, f"f{i}": {f"id{i}": 1, f"p{i}": "x"}} for i in order]
+        gen = MetadataGenerator()
+        reg = ModelRegistry(TableCmp())
+        reg.process_meta_data(gen.generate(*samples), model_name="Root")
+        reg.merge_models(gen)
+        return sorted(tuple(sorted(k for k in m.type if k.startswith("id"))) for m in reg.models if any(k.startswith("id") for k in m.type))
+    try:
+        a = run(range(n))
+        b = run(perm)
+    except Exception as e:
+        out.fail("merge_raises", f"{type(e).__name__}: {e} perm={perm} table={bits}", "merge_raises")
+        return
+    out.info = {"perm": list(perm), "table": {str(k): v for k, v in bits.items()}}
+    out.check(a == b, "order_or_repetition_dependent",
+              lambda: f"similarity table {bits}: samples in order 0..{n - 1} give classes {a}, in order {perm} give {b}", "order_dependent:merge_partition")
+
+
 def parts(tier):
     if tier == "quick":
         return [CH("order", "vflib.props.c07:scen_order", {"kinds": "KINDS_ORDER", "samples": 3},
-                   shards=16, timeout=170, path_timeout=60, mode="CH-P+CH-E")]
-    return [CH("order", "vflib.props.c07:scen_order", {"kinds": "KINDS_SMALL", "samples": 3, "merge": ["default", "p50n2"], "all_traced": True},
+                   shards=16, timeout=170, path_timeout=60, mode="CH-P+CH-E"),
+                CH("merge_order", "vflib.props.c07:scen_merge_order", {"models": 4}, shards=16, timeout=170, path_timeout=30)]
+    return [CH("merge_order", "vflib.props.c07:scen_merge_order", {"models": 5}, shards=16, timeout=2400, path_timeout=30),CH("order", "vflib.props.c07:scen_order", {"kinds": "KINDS_SMALL", "samples": 3, "merge": ["default", "p50n2"], "all_traced": True},
                shards=16, timeout=1500, path_timeout=90, mode="CH-P+CH-E"),
             CH("order_nested", "vflib.props.c07:scen_order", {"kinds": "KINDS_NEST", "samples": 3, "merge": ["default", "p50n2"],
                                                               "symbolic_leaves": False},
@@ -104,7 +145,7 @@ META = {
     "explanation": "for every genome of 3 samples every permutation / duplication variant is compared with the original order: at IR level on symbolic leaves under CrossHair, at registry level natively",
     "functions_encoded": ["MetadataGenerator.generate/_convert/_detect_type/merge_field_sets/_optimize_union", "DUnion.__init__/__eq__", "ModelRegistry.merge_models"],
     "symbolic_on_path": ["int/float/bool leaves (shared by all orders)", "kind of the varying field per sample", "merge policy"],
-    "bounds": {"quick": "3 samples, 8 kinds on one varying key; 5 permutations + 9 duplications (+6 duplicate-and-permute natively)",
+    "bounds": {"quick": "4 nested models x all similarity tables x all sample orders; 3 samples, 10 kinds on one varying key; 5 permutations + 9 duplications (+6 duplicate-and-permute natively)",
                "thorough": "3 samples x 10 kinds x 2 merge policies (all 26 variants traced); 3 samples x 14 nested kinds natively; 2 samples x 2 varying keys"},
     "outside_claim": ["more than 3 samples", "strings other than the atoms of the pool"],
     "assumptions": ["models are compared as sets of (field, optional?, type-as-set); references are compared by the key set of the target"],
